@@ -882,7 +882,7 @@ def weird_net(rng, idx=0):
 # LUT reuse, deep weight slicing, single-channel FC after buffered convs, bias-less convs, ...)
 
 PATTERNS = ["multi_input", "input_npu_and_cpu", "residual", "lut_reuse", "deep_slices", "fc1_after_conv", "nobias",
-            "casc_s2_valid", "two_npu_islands", "concat_slices", "shared_weights", "big_fm_u65", "avgpool_chain", "minmax_lrelu", "reshape_fork"]
+            "casc_s2_valid", "two_npu_islands", "concat_slices", "shared_weights", "big_fm_u65", "avgpool_chain", "minmax_lrelu", "reshape_fork", "widen_ew"]
 
 
 def pattern_net(rng, idx=0, pattern=None):
@@ -1028,6 +1028,19 @@ def pattern_net(rng, idx=0, pattern=None):
         y = b.pool(y, "AVERAGE_POOL_2D", (2, 2), (2, 2), "VALID")
         y = b.unary("RELU6", y)
         return b.finish([y])
+    if pattern == "widen_ew":
+        # elementwise operator whose result type is wider than its operands (int8 -> int16/int32, uint8 -> int32):
+        # same shape, single-consumer input, so every "may the output reuse the input's bytes" decision is exercised
+        shp = [1, rng.randint(2, 12), rng.randint(2, 12), rng.choice([4, 8, 16])]
+        x = b.input(shp)
+        y = b.input(shp) if rng.random() < 0.5 else b.conv(x, shp[3], (1, 1), (1, 1), (1, 1), "SAME")
+        first = b.conv(x, shp[3], (3, 3), (1, 1), (1, 1), "SAME") if rng.random() < 0.5 else x
+        wide = rng.choice(["int16", "int32"]) if dtype == "int8" else "int32"
+        kind = rng.choice(["ADD", "SUB", "MUL"])
+        o = b.fm(shp, wide) if wide == "int16" else b.net.add(T(b.fresh("t"), shp, "int32", scales=[rand_scale(rng)], zps=[0]))
+        oname = {"ADD": "AddOptions", "SUB": "SubOptions", "MUL": "MulOptions"}[kind]
+        b.net.ops.append(Op(kind, [first, y], [o], (oname, dict(FusedActivationFunction=0))))
+        return b.finish([o])
     if pattern == "reshape_fork":
         # a produced feature map with two consumers, one of them through a memory-only operator that cannot be
         # bypassed (so it becomes a copy) followed by an elementwise operator that may work in place
